@@ -690,7 +690,8 @@ Definition expected_RemoveHandler : skel :=
   [SLock "s.handlersMutex"; SDeferUnlock "s.handlersMutex"; SIf "!ok || hnd.users != 0" [SReturn] []; SReturn].
 
 Definition expected_idleHandlerCleaner : skel :=
-  [SFor [SSelect false [[SRecv "t.C"; SLock "s.handlersMutex"; SUnlock "s.handlersMutex"];
+  [SDefer [SClose "s.cleanerDone"];
+   SFor [SSelect false [[SRecv "t.C"; SLock "s.handlersMutex"; SUnlock "s.handlersMutex"];
                         [SRecv "s.closing"; SReturn]]]].
 
 Definition expected : list (string * skel) :=
